@@ -248,3 +248,62 @@ pub fn selftest() {
         }
     }
 }
+
+/// Head of the smallest subtree for which `bad` holds (used to key signatures by root cause).
+pub fn localise(e: &E, bad: &mut dyn FnMut(&E) -> bool) -> String {
+    let mut best: Option<(usize, String)> = None;
+    let mut nodes: Vec<&E> = Vec::new();
+    grammar::walk(e, &mut |n| nodes.push(n));
+    // smallest first
+    nodes.sort_by_key(|n| grammar::size(n));
+    for n in nodes {
+        if matches!(n, E::Lit(_) | E::Const(_) | E::Ans) && best.is_some() {
+            continue;
+        }
+        if bad(n) {
+            best = Some((grammar::size(n), head(n)));
+            break;
+        }
+    }
+    best.map(|b| b.1).unwrap_or_else(|| "whole".into())
+}
+
+/// Literal spelling of a non-negative finite double that parses back to exactly that double (if short enough).
+pub fn f64_literal(v: f64) -> Option<String> {
+    if !v.is_finite() || v.is_sign_negative() {
+        return None;
+    }
+    let s = format!("{}", v);
+    if s.len() > 60 || s.contains('e') {
+        return None;
+    }
+    Some(s)
+}
+
+/// Expression text evaluating to exactly `v` in eval_f64 / eval_number(Float) / eval_complex (real part).
+pub fn f64_expr(v: f64) -> Option<String> {
+    if v.is_nan() {
+        return Some("(0/0)".into());
+    }
+    if v == f64::INFINITY {
+        return Some("(1/0)".into());
+    }
+    if v == f64::NEG_INFINITY {
+        return Some("(-1/0)".into());
+    }
+    if v.is_sign_negative() {
+        f64_literal(-v).map(|s| format!("(-{})", s))
+    } else {
+        f64_literal(v)
+    }
+}
+
+pub fn i64_expr(v: i64) -> String {
+    if v == i64::MIN {
+        "(-9223372036854775807-1)".into()
+    } else if v < 0 {
+        format!("(-{})", -v)
+    } else {
+        format!("{}", v)
+    }
+}
